@@ -21,6 +21,10 @@ var (
 type writer struct {
 	target  string
 	dagFile string
+	// mustExist makes open fail instead of creating the target: an update
+	// appends to the record of an existing run and must not start a second
+	// record file if the first one was compacted away in the meantime.
+	mustExist bool
 	writer  *bufio.Writer
 	file    *os.File
 	mu      sync.Mutex
@@ -40,7 +44,13 @@ func (w *writer) open() error {
 		return err
 	}
 
-	file, err := util.OpenOrCreateFile(w.target)
+	var file *os.File
+	var err error
+	if w.mustExist {
+		file, err = os.OpenFile(w.target, os.O_APPEND|os.O_WRONLY, 0755)
+	} else {
+		file, err = util.OpenOrCreateFile(w.target)
+	}
 	if err != nil {
 		return err
 	}
